@@ -95,6 +95,22 @@ class Builder:
         cg.fields['labelMap'] = m
         return cg
 
+    def contiguity(self, items):
+        """After layout: every directive starts where the previous one ends (templates without DATA, so no alignment gaps).
+        Returns a list of discrepancies."""
+        out = []
+        for a, b in zip(items, items[1:]):
+            sz = self.I.invoke(self.I.resolve_method(a, 'getSize', None), a, [])
+            oa, ob = a.fields.get('byteOffset'), b.fields.get('byteOffset')
+            if not (isinstance(sz, IV) and isinstance(oa, IV) and isinstance(ob, IV)):
+                continue
+            if oa.aff is None or ob.aff is None:
+                continue
+            end = aff_add(oa.aff, sz.aff if sz.aff is not None else ({}, sz.lo)) if (sz.aff is not None or sz.concrete()) else None
+            if end is not None and not aff_eq(end, ob.aff):
+                out.append('%s ends at %s but %s is placed at %s' % (a.name, aff_str(end), b.name, aff_str(ob.aff)))
+        return out
+
     def layout(self, items):
         cg = self.codegen(items)
         f = self.idx.func('hexasm::CodeGen::resolveLabels')
@@ -402,7 +418,8 @@ def relative_case(idx, mnem, direction, lo, hi, out, budget=None):
     lab = B.label('L')
     ins = B.ref(mnem, 'L')
     blk = B.pad('G', lo, hi, None, 1, 'input')
-    prog = [ins, blk, lab] if direction == 'fwd' else [lab, blk, ins]
+    tail = B.imm('LDAC', 0)          # something after the last label / the last reference: its offset must follow the final sizes
+    prog = [ins, blk, lab, tail] if direction == 'fwd' else [lab, blk, ins, tail]
     try:
         B.layout(prog)
     except NeedSplit as e:
@@ -425,6 +442,7 @@ def relative_case(idx, mnem, direction, lo, hi, out, budget=None):
     lv = lab.fields['labelValue']
     reach = aff_add(aff_add(off.aff, ({}, size.lo)), op.aff) if (off.aff and op.aff) else None
     consistent = aff_eq(reach, lv.aff)
+    gaps = B.contiguity(prog)
     # does the operand class fit the encoding?  (emit + fold, as in C04)
     fits = None
     detail = ''
@@ -451,7 +469,72 @@ def relative_case(idx, mnem, direction, lo, hi, out, budget=None):
             fits, detail = _fold_ok(st['bytes'], V, spec_isa.OPCODES[mnem], size.lo)
         except NeedSplit:
             fits, detail = False, 'emission not uniform on the operand class'
+    if gaps:
+        consistent = False
+        lv = lab.fields['labelValue']
+        detail = (detail + '; ' if detail else '') + 'layout not contiguous after the last pass: ' + '; '.join(gaps)
+        out.append((lo, hi, size.lo, consistent, fits, aff_str(reach) + ' [' + '; '.join(gaps) + ']', aff_str(lv.aff), detail, repr(op)))
+        return
     out.append((lo, hi, size.lo, consistent, fits, aff_str(reach), aff_str(lv.aff), detail, repr(op)))
+
+
+def emit_one(idx, ins):
+    """Bytes that the loop body of emitProgramBin writes for one directive."""
+    emit = idx.func('hexasm::CodeGen::emitProgramBin')
+    st = {'bytes': []}
+    I2 = ivinterp.Interp(idx, c04.hooks_factory(st))
+    loop, var, body, pre = c04.find_range_for(emit)
+    env = {'this': Obj('hexasm::CodeGen', {}, 'CodeGen'), 'locals': {}}
+    for prm in emit.params:
+        env['locals'][prm['id']] = Obj('std::ostream', {}, 'outputFile')
+    for s_ in pre:
+        I2.stmt(s_, env)
+    env['locals'][var['id']] = ins
+    I2.stmt(body, env)
+    return st['bytes']
+
+
+def rule_oversized(rep, idx, rid='R7b'):
+    """A reference keeps the length it was extended to even when a later pass makes its operand smaller (sizes only grow); the
+    emitter must then still write getSize() bytes that decode to the operand -- not the minimal encoding of the value."""
+    rep.rule(rid, 'a label reference whose encoding is longer than its final operand needs (it was extended in an earlier pass) is '
+             'emitted with exactly getSize() bytes, which decode to the operand: layout and image stay in step', floor=8)
+    where = pos(idx.func('hexasm::CodeGen::emitProgramBin').node) + ' hexasm::CodeGen::emitProgramBin'
+    for mnem in ('BR', 'LDAC'):
+        for size in (2, 3, 5, 8):
+            lim = 16 ** (size - 1)
+            classes = [(0, 15)]
+            if size > 2:
+                classes += [(16, min(lim - 1, (1 << 31) - 1)), (-16, -1), (-min(lim // 16, 1 << 31), -17)]
+            setter = [m for m in idx.record('hexasm::InstrLabel').methods if m.name == 'setLabelValue' and len(m.params) == 2]
+            if not setter:
+                rep.undecided(rid, '%s:size=%d' % (mnem, size), 'InstrLabel::setLabelValue(value, size) not found: idiom not recognised', where)
+                return
+            todo = [c for c in classes if c[0] <= c[1]]
+            budget = 64
+            while todo:
+                lo, hi = todo.pop(0)
+                key = '%s:size=%d:operand[%d,%d]' % (mnem, size, lo, hi)
+                B = Builder(idx)
+                ins = B.ref(mnem, 'L')
+                V = IV(32, True, lo, hi, bits_of_interval(32, lo, hi), 'input')
+                try:
+                    B.I.invoke(setter[0], ins, [V, const(64, False, size)])
+                    gs = B.I.invoke(B.I.resolve_method(ins, 'getSize', None), ins, [])
+                    if not (isinstance(gs, IV) and gs.concrete() and gs.lo == size):
+                        rep.undecided(rid, key, 'could not establish a %d-byte reference through the size setter (getSize() = %r)' % (size, gs), where)
+                        continue
+                    bytes_ = emit_one(idx, ins)
+                    ok, detail = _fold_ok(bytes_, V, spec_isa.OPCODES[mnem], size)
+                except NeedSplit as e:
+                    budget -= 1
+                    if lo == hi or budget < 0:
+                        rep.undecided(rid, key, 'emission is not uniform on the operand class and splitting did not help: %s' % (e,), where)
+                        continue
+                    mid = _split_point(e, lo, hi)
+                    todo[:0] = [(lo, mid), (mid + 1, hi)]
+                    continue
+                rep.add(rid, key, ok, where, detail if not ok else '%d bytes written for a %d-byte reference; they decode to the operand' % (size, size))
 
 
 def _split_point(e, lo, hi):
@@ -948,4 +1031,5 @@ def run(rep, tier):
     rule_layout_emission(rep, idx)
     rule_header(rep, idx)
     rule_relative(rep, idx, tier)
+    rule_oversized(rep, idx)
     rule_termination(rep, idx)
